@@ -93,13 +93,13 @@ def make(kind):
     if kind == "TextLen":
         return svg.Text("hello", x="1in", y="2in", fill="red", transform="scale(2)")
     if kind == "ImageLen":
-        return svg.Image(href="x.png", x="1in", y="10%", width="3in", height="4in", transform="translate(1,1)")
+        return svg.Image(href="x.png", x="1in", y="10%", width="3in", height="4in", viewBox="0 0 30 40", transform="translate(1,1)")
     if kind == "MatrixLen":
         return svg.Matrix("translate(1in, 2in)")
     if kind == "Text":
         return svg.Text("hello", x=3, y=4, fill="red", stroke="blue", stroke_width=1.5, transform="scale(2)")
     if kind == "Image":
-        return svg.Image(href="x.png", x=1, y=2, width=10, height=20, transform="translate(1,1)")
+        return svg.Image(href="x.png", x=1, y=2, width=10, height=20, viewBox="0 0 100 200", transform="translate(1,1)")
     raise KeyError(kind)
 
 
@@ -248,6 +248,10 @@ def mutate(obj, m):
         raise KeyError("no child attribute")
     elif m == "childtredit":
         first_child_shape(obj).transform.post_translate(2, 2)
+    elif m == "vbedit":
+        if getattr(obj, "viewbox", None) is None:
+            raise KeyError("no viewbox")
+        obj.viewbox.width = 99.0
     elif m == "settext":
         obj.text = "changed"
     elif m == "seturl":
